@@ -7,6 +7,7 @@ import (
 	"fmt"
 	"os"
 	"path/filepath"
+	"regexp"
 	"strings"
 	"time"
 
@@ -21,6 +22,17 @@ type RotCase struct {
 	Debug   bool       `json:"debug,omitempty"`
 	NowUnix int64      `json:"now_unix"`
 	Config  string     `json:"config_ini,omitempty"`
+}
+
+// bigNumberMarker: the recorded findings about unbounded durations are recognised by it (known_findings.json,
+// "requires"), so that another defect surfacing at the same site on ordinary numbers is still reported.
+var bigNumberRe = regexp.MustCompile(`\d{10,}`)
+
+func bigNumberMarker(text string) string {
+	if bigNumberRe.MatchString(text) {
+		return " [the input holds a number of 10 or more digits]"
+	}
+	return ""
 }
 
 type rotEngine struct{}
@@ -93,6 +105,10 @@ func (rotEngine) generate(property string, seed int64, index int, tier string) *
 	nc := r.Range(1, 3)
 	for i := 0; i < nc; i++ {
 		rc.Cmds = append(rc.Cmds, rotCommands[r.Intn(len(rotCommands))])
+	}
+	if r.Chance(1, 3) {
+		// one more invocation with randomly drawn flags, values and spellings
+		rc.Cmds = append(rc.Cmds, genEvalCommand(r))
 	}
 	if r.Chance(1, 5) {
 		// a config file: other rendering and evaluation paths (colour schemes, formats, suppressed warnings)
@@ -188,7 +204,7 @@ func (rotEngine) execute(sc *Scenario) *Outcome {
 	}
 	spanDays := recordSpanDays(text)
 	for ci, cmd := range rc.Cmds {
-		if spanDays > 1500 && containsArg(cmd, "--fill") {
+		if spanDays > 1500 && (containsArg(cmd, "--fill") || cmd[0] == "report" && containsArg(cmd, "-f")) {
 			// `report --fill` costs time proportional to (and, in klog today, worse than linear in)
 			// the number of days between the first and the last record; a bit flip in a year
 			// digit makes that centuries. Slow is not hung: such cases are not run (bounded runs).
@@ -211,7 +227,7 @@ func (rotEngine) execute(sc *Scenario) *Outcome {
 		site := cmd[0]
 		switch {
 		case pr.Crashed:
-			out.Verdicts = append(out.Verdicts, mkVerdict("C06", "panic", pr.PanicSite, fmt.Sprintf("klog %s: %s", strings.Join(cmd, " "), pr.PanicValue), ci+1))
+			out.Verdicts = append(out.Verdicts, mkVerdict("C06", "panic", pr.PanicSite, fmt.Sprintf("klog %s: %s%s", strings.Join(cmd, " "), pr.PanicValue, bigNumberMarker(text)), ci+1))
 		case pr.Hang:
 			out.Verdicts = append(out.Verdicts, mkVerdict("C06", "hang", site, fmt.Sprintf("klog %s did not finish", strings.Join(cmd, " ")), ci+1))
 		case pr.ExitCode < 0 || pr.ExitCode > 125:
